@@ -30,7 +30,8 @@ RULE = ('lines: sequences of server lines over an abstract alphabet (REJECTED wi
         'client closes and never claims success. Non-trivial = the sequence contains a valid OK or '
         'moves past the first mechanism; distinct = distinct case JSON. In every second cookie handshake the keyring directory is '
         'a symbolic link to a private directory; challenges come in lower- or upper-case hex; $HOME is spelled with // or /./ in half '
-        'of the cases.')
+        'of the cases; the real uid differs from the effective uid (os.getuid patched) in two thirds; REJECTED also comes with a '
+        'partial or foreign mechanism list.')
 ASSUMPTIONS = ['an exception escaping dataReceived counts as connection loss (what the reactor does)',
                'the reference server actor is the trusted statement of a spec-conforming server']
 
@@ -38,6 +39,8 @@ GUIDHEX = b'0123456789abcdef0123456789abcdef'
 PREF = [b'EXTERNAL', b'DBUS_COOKIE_SHA1', b'ANONYMOUS']
 LETTERS = {
     'RJ': b'REJECTED EXTERNAL DBUS_COOKIE_SHA1 ANONYMOUS', 'RJ0': b'REJECTED', 'OKh': b'OK ' + GUIDHEX,
+    # the list a server sends along is advice: one that names only mechanisms already used up, or none the client knows
+    'RJe': b'REJECTED EXTERNAL', 'RJk': b'REJECTED KERBEROS_V4 SKEY',
     'OKx': b'OK not-hex!', 'OK0': b'OK', 'Dh': b'DATA 6162', 'Dj': b'DATA zz', 'D0': b'DATA', 'ER': b'ERROR',
     'ERt': b'ERROR "no way"', 'AG': b'AGREE_UNIX_FD', 'UK': b'WHATEVER x', 'EM': b'', 'NU': b'\xff\xfe\xfd',
     'OKs': b'OK  ' + GUIDHEX + b' ', 'LC': b'ok ' + GUIDHEX, 'Dc': b'DATA ' + binascii.hexlify(b'ctx 1 abcdef'),
@@ -45,7 +48,7 @@ LETTERS = {
     'OKw': b'OK 0123456789abcdef 0123456789abcdef', 'OKb': b'OK 01 23 45 67', 'OKtab': b'OK 0123\t4567',
     'OKodd': b'OK 012', 'OK0x': b'OK 0x0123456789abcdef',
 }
-CORE = ['RJ', 'OKh', 'OKx', 'OK0', 'OKw', 'Dh', 'Dj', 'D0', 'ER', 'AG', 'UK', 'EM']
+CORE = ['RJ', 'RJe', 'OKh', 'OKx', 'OK0', 'OKw', 'Dh', 'Dj', 'D0', 'ER', 'AG', 'UK', 'EM']
 # near-commands: a real command word with foreign bytes in it, glued to something, or a word of the other side
 NEAR = {'OKn': b'O\xc3\xa9K ' + GUIDHEX, 'OKz': b'OK\xe2\x80\x8b ' + GUIDHEX, 'RJn': b'\xe2\x80\x8bREJECTED',
         'AGn': b'AGREE\xc2\xa0_UNIX_FD', 'ERn': b'ERR\xc3\x96OR', 'OKAY': b'OKAY ' + GUIDHEX, 'AGx': b'AGREE_UNIX_FDS',
@@ -75,7 +78,7 @@ WHITEBOX = {}
 for _i, _w in enumerate(_whitebox_words()):
     WHITEBOX['WB%d' % _i] = _w.encode('ascii', 'replace') + b' ' + GUIDHEX
 LETTERS.update(WHITEBOX)
-KIND = {'RJ': 'rejected', 'RJ0': 'rejected', 'OKh': 'ok', 'OKs': 'ok', 'OKx': 'ok_bad', 'OK0': 'ok_bad',
+KIND = {'RJ': 'rejected', 'RJ0': 'rejected', 'RJe': 'rejected', 'RJk': 'rejected', 'OKh': 'ok', 'OKs': 'ok', 'OKx': 'ok_bad', 'OK0': 'ok_bad',
         'OKw': 'ok_bad', 'OKb': 'ok_bad', 'OKtab': 'ok_bad', 'OKodd': 'ok_bad', 'OK0x': 'ok_bad',
         'Dh': 'data', 'Dj': 'data', 'D0': 'data', 'Dc': 'data', 'ER': 'error', 'ERt': 'error', 'AG': 'agree',
         'UK': 'outside', 'EM': 'outside', 'NU': 'outside', 'LC': 'outside'}
@@ -417,6 +420,11 @@ def run_handshake(case):
         # $HOME need not be spelled canonically (a doubled slash, a /./ component): it names the same directory
         os.environ['HOME'] = os.path.dirname(scratch) + ('//' if case['unix'] else '/./') + os.path.basename(scratch)
     out = []
+    saved_getuid = os.getuid
+    if case['unix'] is not True:
+        # a process whose REAL uid differs from its effective uid (a daemon after seteuid(), a set-uid program): files
+        # it creates - its keyring - belong to the effective uid, which is the identity that counts
+        os.getuid = lambda: saved_getuid() + 1000
     try:
         log = {'authed': 0}
         if _keyring_is_link(case):
@@ -476,6 +484,7 @@ def run_handshake(case):
     except Exception as e:
         out.append(Disc(exc_key(e, 'handshake.exception'), exc_detail(e)))
     finally:
+        os.getuid = saved_getuid
         if saved_home is None:
             os.environ.pop('HOME', None)
         else:
